@@ -64,6 +64,19 @@ Theorem C11_roundtrip :
 Proof. exact decrypt_encrypt. Qed.
 Print Assumptions C11_roundtrip.
 
+(* The literals of the hand model are the ones in the source: loop `for i := 0; i < 16; i++` of
+   GuessDataWithHash and sha1.Size are GENERATED (Gen/DataWithHash.v); a change of either in the Go
+   code breaks this proof. *)
+Theorem C11_constants_are_the_sources :
+  Z.of_nat sha1_size = c_sha1_Size /\ c_guess_from = 0 /\ c_guess_to = 16 /\
+  (forall sha1 dwh, (sha1_size < length dwh)%nat ->
+     guess_data_with_hash sha1 dwh = guess_loop sha1 (Z.to_nat c_guess_to) (Z.to_nat c_guess_from) dwh (firstn (Z.to_nat c_sha1_Size) dwh)).
+Proof.
+  repeat split; try reflexivity.
+  intros sha1 dwh H. unfold guess_data_with_hash.
+  destruct (Nat.leb_spec (length dwh) sha1_size); [exfalso; apply (Nat.lt_irrefl (length dwh)); eapply Nat.le_lt_trans; eassumption|reflexivity].
+Qed.
+
 (* The defect that was repaired (fix commit in /repo, see known_findings.jsonl): the code
    tested the INPUT slice for nil instead of the guess result, so 64 zero bytes under a zero
    key gave (nil, nil).  Model of the old test, kept to document the witness shape: *)
